@@ -9,7 +9,7 @@ from nauyaca.server.proxy import ProxyHandler
 from nauyaca.utils.url import parse_url
 
 import vf.server  # noqa: F401
-from vf import NoLog, Ob, V, pick
+from vf import NoLog, Ob, V, internal, pick
 from vf.stubs import drive
 
 px.logger = NoLog()
@@ -34,7 +34,7 @@ def _proxy(ui, pi, strip):
     async def fake_get(url, follow_redirects=True):
         seen.append((url, follow_redirects))
         return GeminiResponse(status=20, meta="text/gemini", body="ok", url=url)
-    h._client.get = fake_get
+    internal(h, "_client").get = fake_get
     return h, seen
 
 
@@ -215,12 +215,12 @@ def route(l1: int, l2: int, l3: int, n: int, si: int) -> bool:
     router = cfg.get_location_router()
     hit = []
     for r_i, r in enumerate(router.routes):
-        ph = r.handler.__self__
+        ph = internal(r.handler, "__self__")
 
         async def fake_get(url, follow_redirects=True, _i=r_i):
             hit.append((_i, url))
             return GeminiResponse(status=20, meta="text/gemini", body="ok")
-        ph._client.get = fake_get
+        internal(ph, "_client").get = fake_get
     try:
         req = GeminiRequest.from_line("gemini://front" + SHAPES[si])
     except ValueError:
